@@ -2465,6 +2465,7 @@ func runCache(ctx *Ctx) {
 	e.literalScenarios(rr.path)
 	e.reuseLines()
 	e.histLines()
+	e.histSoak()
 	e.marshalAliasOracle()
 	e.decoderReuseObservation()
 	e.cacheRunLines()
